@@ -428,7 +428,11 @@ func main() {
 	}
 	rep := vh.NewReport(a, "part 1: PRNG-generated concurrent programs from 9 schedule-independent families (fan-in, buffered+close+range, WaitGroup+Mutex, select with default, select over two producers, closure shared between goroutines, pipeline, nested go, close-broadcast) with random sizes/capacities/constants, each run R times under GOMAXPROCS 1,2,4,8 and compared with the compiled function; ownership probe chk() at the start of every goroutine body and closure, registry audit after every program; "+
 		"part 2: order-dependent programs (2-3 senders, 1-2 values each, capacity 0-2) checked against the exhaustively enumerated admissible set; every program with >= 2 goroutines is non-trivial; distinct by SHA-256 of the source")
-	wd := vh.NewWatchdog(rep, 60*time.Second)
+	limit := 120 * time.Second // one heartbeat covers the `go build` of the whole oracle batch
+	if raceEnabled || a.Thorough() {
+		limit = 420 * time.Second
+	}
+	wd := vh.NewWatchdog(rep, limit)
 	if mode == "corpus" {
 		runCorpus(rep, 200)
 		rep.Write()
